@@ -80,6 +80,23 @@ def _template(accel, kind):
         op.padding = a.NpuPadding(0, 0, 0, 0)
         op.block_config = a.NpuShape3D(2, 2, 16)
         op.rescale = ExplicitScaling(False, [30], [1 << 30])
+    elif kind == "dw":
+        op = a.NpuConvDepthWiseOperation()
+        op.ifm = fm(8, 8, 16, 1, 0x1000)
+        op.ofm = fm(8, 8, 16, 1, 0x8000)
+        op.kernel = a.NpuKernel(3, 3, 1, 1, 1, 1)
+        op.padding = a.NpuPadding(1, 1, 1, 1)
+        op.weights = [a.NpuAddressRange(0, 0x100, 160)] + ([a.NpuAddressRange(0, 0x400, 160)] if accel.endswith("512") else [])
+        op.biases = [a.NpuAddressRange(0, 0x800, 32)] + ([a.NpuAddressRange(0, 0x900, 32)] if accel.endswith("512") else [])
+        op.block_config = a.NpuShape3D(2, 2, 16)
+    elif kind == "ew":
+        op = a.NpuElementWiseOperation(a.NpuElementWiseOp.ADD)
+        op.ifm = fm(8, 8, 16, 1, 0x1000)
+        op.ifm2 = fm(8, 8, 16, 1, 0x2000)
+        op.ofm = fm(8, 8, 16, 1, 0x8000)
+        for f in (op.ifm, op.ifm2, op.ofm):
+            f.quantization = a.NpuQuantization(scale_f32=None, zero_point=0)
+        op.block_config = a.NpuShape3D(4, 4, 16)
     else:
         op = a.NpuDmaOperation(a.NpuAddressRange(0, 0x1000, 256), a.NpuAddressRange(1, 0x4000, 256))
     return op
@@ -100,10 +117,15 @@ def _set_group(V, op, group, tag, accel):
         op.ofm.tiles = op.ofm.tiles._replace(addresses=ads + [0, 0])
     elif group == "weights":
         n = len(op.weights)
+        if n == 2 and tag == "2":
+            # an operation may carry fewer ranges than the accelerator has cores (e.g. one output channel): the idle core's length must be 0
+            n = V.choice("weight_ranges_%s" % tag, [2, 1])
         # the last core's range is symbolic (with 2 cores the first stays as in the template: keeps the elision path count small)
         op.weights = op.weights[:n - 1] + [a.NpuAddressRange(0, iv("w%d_addr" % (n - 1), 0, amax - (1 << 24)), iv("w%d_len" % (n - 1), 0, (1 << 24)))]
     elif group == "biases":
         n = len(op.biases)
+        if n == 2 and tag == "2":
+            n = V.choice("bias_ranges_%s" % tag, [2, 1])
         op.biases = op.biases[:n - 1] + [a.NpuAddressRange(0, iv("b%d_addr" % (n - 1), 0, amax - (1 << 24)), iv("b%d_len" % (n - 1), 0, (1 << 24)))]
     elif group == "tiles":
         op.ifm.tiles = op.ifm.tiles._replace(height_0=iv("h0", 1, 8), height_1=iv("h1", 1, 8), width_0=iv("w0", 1, 8))
@@ -126,6 +148,113 @@ def _set_group(V, op, group, tag, accel):
         op.activation.max = V.choice("act_max_%s" % tag, [6.0, 1.0])
     elif group == "ofm_scale":
         op.rescale = ExplicitScaling(False, [iv("shift", 0, 63)], [iv("mult", 0, (1 << 32) - 1)])
+    elif group == "kernel":
+        # symbolic kernel geometry: the registers are pure arithmetic on these fields (the SHRAM layout derived from the kernel is stubbed
+        # to the template's - it is C15's subject)
+        k = op.kernel
+        k.width, k.height = iv("kw", 1, 16), iv("kh", 1, 16)
+        k.stride_x, k.stride_y = iv("sx", 1, 3), iv("sy", 1, 3)
+        # dilation and traversal are concrete per path (dilation multiplies the kernel size); the first operation only takes one choice of
+        # them (its role is to leave arbitrary values in the registers), the second all
+        full = tag == "2"
+        k.dilation_x, k.dilation_y = V.choice("dx_%s" % tag, [1, 2] if full else [1]), V.choice("dy_%s" % tag, [1, 2] if full else [2])
+        if isinstance(op, a.NpuConv2DOperation):
+            op.block_traversal = V.choice("trav_%s" % tag, [a.NpuBlockTraversal.DEPTH_FIRST, a.NpuBlockTraversal.PART_KERNEL_FIRST] if full
+                                          else [a.NpuBlockTraversal.DEPTH_FIRST])
+    elif group == "ifm_prec":
+        T = a.NpuDataType
+        full = tag == "2"
+        op.ifm.data_type = V.choice("ifm_dt_%s" % tag, [T.UINT8, T.INT8, T.INT16] if full else [T.UINT8, T.INT16])
+        op.ifm.layout = V.choice("ifm_layout_%s" % tag, [a.NpuLayout.NHWC, a.NpuLayout.NHCWB16])
+        op.ifm_upscale = V.choice("ups_%s" % tag, [a.NpuResamplingMode.NONE, a.NpuResamplingMode.NEAREST, a.NpuResamplingMode.TRANSPOSE] if full
+                                  else [a.NpuResamplingMode.NONE, a.NpuResamplingMode.NEAREST])
+        if op.ifm_upscale != a.NpuResamplingMode.NONE:
+            op.ifm.shape = a.NpuShape3D(4, 4, 16)
+            op.ifm.tiles = op.ifm.tiles._replace(height_0=4, height_1=4, width_0=4)
+    elif group == "ofm_prec":
+        T = a.NpuDataType
+        full = tag == "2"
+        op.ofm.data_type = V.choice("ofm_dt_%s" % tag, [T.UINT8, T.INT8, T.INT16, T.INT32] if full else [T.UINT8, T.INT16])
+        op.ofm.layout = V.choice("ofm_layout_%s" % tag, [a.NpuLayout.NHWC, a.NpuLayout.NHCWB16] if full else [a.NpuLayout.NHWC])
+        R = a.NpuRoundingMode
+        op.rounding_mode = V.choice("round_%s" % tag, [R.TFL, R.TRUNCATE, R.NATURAL] if full else [R.TFL, R.NATURAL])
+    elif group == "shape":
+        # symbolic feature-map shape: OFM size registers, IFM depth, default strides of both layouts.  The first operation only leaves
+        # arbitrary values in the registers (one layout/type), the second takes every layout/type.
+        full = tag == "2"
+        lay = V.choice("layout_%s" % tag, [a.NpuLayout.NHWC, a.NpuLayout.NHCWB16] if full else [a.NpuLayout.NHWC])
+        dt = V.choice("dt_%s" % tag, [a.NpuDataType.INT8, a.NpuDataType.INT16] if full else [a.NpuDataType.INT8])
+        # width * depth appears in the row stride: one of the two is symbolic, the other enumerated (keeps the arithmetic linear)
+        if V.choice("symbolic_dim_%s" % tag, ["w", "d"] if full else ["w"]) == "w":
+            h, w, d = iv("h", 1, 4096), iv("w", 1, 4096), V.choice("d_%s" % tag, [1, 16, 17, 40] if full else [16])
+        else:
+            h, w, d = iv("h", 1, 4096), V.choice("w_%s" % tag, [1, 3, 8]), iv("d", 1, 4096)
+        for f in (op.ifm, op.ofm):
+            f.layout, f.data_type = lay, dt
+            f.shape = a.NpuShape3D(h, w, d)
+            f.tiles = f.tiles._replace(height_0=h, height_1=h, width_0=w)
+    elif group in ("ifm_strides", "ofm_strides"):
+        # explicit strides supplied through the API (one feature map per instance: six more elision decisions would square the paths)
+        full = tag == "2"
+        lay = V.choice("layout_%s" % tag, [a.NpuLayout.NHWC, a.NpuLayout.NHCWB16] if full else [a.NpuLayout.NHWC])
+        dt = V.choice("dt_%s" % tag, [a.NpuDataType.INT8, a.NpuDataType.INT16] if full else [a.NpuDataType.INT16])
+        f = op.ifm if group == "ifm_strides" else op.ofm
+        f.layout, f.data_type = lay, dt
+        f.strides = a.NpuShape3D(height=iv("sy", 0, amax), width=iv("sx", 0, amax), depth=iv("sc", 0, amax))
+    elif group == "act_kind":
+        A = a.NpuActivationOp
+        full = tag == "2"
+        kind_ = V.choice("act_op_%s" % tag, [A.NONE_OR_RELU, A.TANH, A.SIGMOID, A.TABLE_LOOKUP] if full else [A.NONE_OR_RELU, A.TABLE_LOOKUP])
+        op.activation = a.NpuActivation(kind_)
+        if kind_ == A.TABLE_LOOKUP:
+            op.activation.lookup_table_index = iv("lut_index", 0, 7)
+        op.ofm.data_type = V.choice("ofm_dt_%s" % tag, [a.NpuDataType.INT8, a.NpuDataType.INT32, a.NpuDataType.INT16] if full else [a.NpuDataType.INT8])
+    elif group == "pool_kind":
+        P = a.NpuPoolingOp
+        op.sub_op_type = V.choice("pool_op_%s" % tag, [P.MAX, P.AVERAGE, P.REDUCE_SUM])
+        op.rescale = None
+        op.padding = a.NpuPadding(V.choice("pt_%s" % tag, [0, 1]), 0, 0, 0)
+        if op.sub_op_type == P.REDUCE_SUM:
+            op.ofm.shape = a.NpuShape3D(8, 8, 1)
+            op.ofm.data_type = a.NpuDataType.INT32
+        for f in (op.ifm, op.ofm):
+            f.quantization = a.NpuQuantization(scale_f32=None, zero_point=0)
+    elif group == "ew_kind":
+        E = a.NpuElementWiseOp
+        full = tag == "2"
+        op.sub_op_type = V.choice("ew_op_%s" % tag, [E.ADD, E.SUB, E.MUL, E.MIN, E.MAX, E.SHR, E.SHL, E.ABS, E.LRELU, E.CLZ] if full else [E.ADD, E.MIN, E.ABS])
+        if op.sub_op_type in (E.ABS, E.LRELU, E.CLZ):
+            op.ifm2 = None
+        if op.sub_op_type in (E.ABS, E.LRELU):
+            op.ofm.quantization = a.NpuQuantization(scale_f32=1.0, zero_point=0)
+        if op.sub_op_type in (E.ADD, E.SUB, E.MUL):
+            op.rescale = (iv("mult", 1, (1 << 32) - 1), iv("shift", 0, 63))
+    elif group == "ew_rescale":
+        op.sub_op_type = V.choice("ew_op_%s" % tag, [a.NpuElementWiseOp.ADD, a.NpuElementWiseOp.MUL])
+        op.rescale = (iv("mult", 1, (1 << 32) - 1), iv("shift", 0, 63))
+    elif group == "ifm2_addr":
+        ads = [iv("ifm2_base%d" % i, 0, amax - 4096) for i in range(2)]
+        op.ifm2.tiles = op.ifm2.tiles._replace(addresses=ads + [0, 0])
+        op.ifm2.region = V.choice("ifm2_region_%s" % tag, [0, 1, 6])
+        op.ifm2.quantization = a.NpuQuantization(None, iv("ifm2_zp", 0, 255))
+    elif group == "broadcast":
+        full = tag == "2"
+        dims = [V.choice("bc_%s_%s" % (n, tag), [8, 1] if full or n == "h" else [8]) for n in ("h", "w")]
+        dep = V.choice("bc_d_%s" % tag, [16, 1] if full else [16])
+        op.ifm2.shape = a.NpuShape3D(dims[0], dims[1], dep)
+        op.ifm2.tiles = op.ifm2.tiles._replace(height_0=dims[0], height_1=dims[0], width_0=dims[1])
+        op.reversed_operands = V.choice("rev_%s" % tag, [False, True])
+    elif group == "scalar":
+        sc = V.choice("scalar_%s" % tag, [None, 0.0, 3.0, 100.0])
+        op.ifm2_scalar = sc
+        zp = iv("ifm2_zp", 0, 255)
+        op.ifm2.quantization = a.NpuQuantization(None, zp)
+        if sc is not None:
+            V.assume(zp + int(sc) <= 255)
+        op.reversed_operands = V.choice("rev_%s" % tag, [False, True])
+    elif group == "dma_mode":
+        op.channel = V.choice("chan_%s" % tag, [0, 1])
+        op.mode = V.choice("mode_%s" % tag, [0, 1])
     elif group == "dma":
         # regions: 0/1 = external memory, 259 = BASE_PTR_INDEX_MEM2MEM (the NPU's internal SHRAM)
         sreg = V.choice("src_region_%s" % tag, [0, 1, 259])
@@ -138,9 +267,60 @@ def _set_group(V, op, group, tag, accel):
     return op
 
 
+_EW_CODE = {"MUL": 0, "ADD": 1, "SUB": 2, "MIN": 3, "MAX": 4, "LRELU": 5, "ABS": 6, "CLZ": 7, "SHR": 8, "SHL": 9}
+_POOL_CODE = {"MAX": 0, "AVERAGE": 1, "REDUCE_SUM": 2}
+_ROUND_CODE = {"TFL": 0, "TRUNCATE": 1, "NATURAL": 2}
+_UPS_CODE = {"NONE": 0, "NEAREST": 1, "TRANSPOSE": 2}
+_UNARY = ("ABS", "LRELU", "CLZ")
+
+
+def _zmax(*xs):
+    r = L(xs[0])
+    for x in xs[1:]:
+        r = z3.If(L(x) > r, L(x), r)
+    return r
+
+
+def _zmin(*xs):
+    r = L(xs[0])
+    for x in xs[1:]:
+        r = z3.If(L(x) < r, L(x), r)
+    return r
+
+
+def _exp_strides(e, pfx, f):
+    """reference STRIDE_C/Y/X: explicit strides verbatim, else dense packing of the layout (restated from the Ethos-U addressing rule:
+    NHWC element (y,x,c) at y*W*C + x*C + c elements; NHCWB16 at y*W*roundup(C,16) + (c/16)*W*16 + x*16 + c%16 elements)"""
+    from ethosu.vela import api as a
+
+    es = f.data_type.size_in_bits() // 8
+    if f.strides is not None:
+        sc, sy, sx = L(f.strides.depth), L(f.strides.height), L(f.strides.width)
+    elif f.layout == a.NpuLayout.NHWC:
+        sc, sx, sy = L(es), L(f.shape.depth) * es, L(f.shape.width) * L(f.shape.depth) * es
+    else:
+        sx, sc = L(16 * es), L(f.shape.width) * 16 * es
+        sy = L(f.shape.width) * (((L(f.shape.depth) + 15) / 16) * 16) * es
+    e["NPU_SET_%s_STRIDE_C" % pfx], e["NPU_SET_%s_STRIDE_Y" % pfx], e["NPU_SET_%s_STRIDE_X" % pfx] = sc, sy, sx
+
+
+def _global_scale(op):
+    from ethosu.vela import api as a
+    from ethosu.vela.operation import ExplicitScaling
+
+    if isinstance(op, a.NpuPoolingOperation):
+        gs = op.sub_op_type.name in ("AVERAGE", "REDUCE_SUM") and all(isinstance(p, int) and p == 0 for p in op.padding)
+        if isinstance(op.rescale, ExplicitScaling):
+            gs = not op.rescale.per_channel
+        return gs
+    if isinstance(op, a.NpuElementWiseOperation):
+        return op.sub_op_type.name in ("ADD", "SUB", "MUL", "LRELU", "ABS")
+    return False
+
+
 def _expected(op, accel):
     """reference register values for the (direct) fields of an operation: name -> z3 Int of the full register value
-    (cmd1: parameter * 2^32 + payload)"""
+    (cmd1: parameter * 2^32 + payload; cmd0: signed values are compared modulo 2^16)"""
     from ethosu.vela import api as a
 
     e = {}
@@ -150,8 +330,14 @@ def _expected(op, accel):
         e["NPU_SET_DMA0_DST_REGION"] = L(op.dest.region)
         e["NPU_SET_DMA0_DST"] = L(op.dest.address)
         e["NPU_SET_DMA0_LEN"] = L(op.src.length)
+        e["@param"] = L(op.channel) * 16 + L(op.mode)
         return e
-    for pfx, f in (("IFM", op.ifm), ("OFM", op.ofm)):
+    is_ew = isinstance(op, a.NpuElementWiseOperation)
+    has_scalar = is_ew and op.ifm2_scalar is not None
+    fms = [("IFM", op.ifm), ("OFM", op.ofm)]
+    if is_ew and op.ifm2 is not None and op.sub_op_type.name not in _UNARY and not has_scalar:
+        fms.append(("IFM2", op.ifm2))
+    for pfx, f in fms:
         e["NPU_SET_%s_REGION" % pfx] = L(f.region)
         for i in range(4):
             e["NPU_SET_%s_BASE%d" % (pfx, i)] = L(f.tiles.addresses[i])
@@ -159,18 +345,37 @@ def _expected(op, accel):
         e["NPU_SET_%s_HEIGHT1_M1" % pfx] = L(f.tiles.height_1) - 1
         e["NPU_SET_%s_WIDTH0_M1" % pfx] = L(f.tiles.width_0) - 1
         e["NPU_SET_%s_ZERO_POINT" % pfx] = L(f.quantization.zero_point)
+        _exp_strides(e, pfx, f)
     e["NPU_SET_IFM_DEPTH_M1"] = L(op.ifm.shape.depth) - 1
     e["NPU_SET_OFM_HEIGHT_M1"] = L(op.ofm.shape.height) - 1
     e["NPU_SET_OFM_WIDTH_M1"] = L(op.ofm.shape.width) - 1
     e["NPU_SET_OFM_DEPTH_M1"] = L(op.ofm.shape.depth) - 1
+    e["NPU_SET_IFM_UPSCALE"] = L(_UPS_CODE[op.ifm_upscale.name])
+    # ---- precision words
+    gs = _global_scale(op)
+
+    def prec_index(dt):
+        return {8: 0, 16: 1, 32: 2}[dt.size_in_bits()]
+
+    e["NPU_SET_IFM_PRECISION"] = L((1 if op.ifm.data_type.is_signed() else 0) + 4 * prec_index(op.ifm.data_type)
+                                   + (64 if op.ifm.layout == a.NpuLayout.NHCWB16 else 0))  # bits 8..9 (operand to scale): 0 without advanced scaling
+    e["NPU_SET_OFM_PRECISION"] = L((1 if op.ofm.data_type.is_signed() else 0) + 2 * prec_index(op.ofm.data_type)
+                                   + (64 if op.ofm.layout == a.NpuLayout.NHCWB16 else 0) + (256 if gs else 0)
+                                   + 16384 * _ROUND_CODE[op.rounding_mode.name])
     if op.padding is not None:
         e["NPU_SET_IFM_PAD_TOP"] = L(op.padding.top)
         e["NPU_SET_IFM_PAD_LEFT"] = L(op.padding.left)
         e["NPU_SET_IFM_PAD_BOTTOM"] = L(op.padding.bottom)
         e["NPU_SET_IFM_PAD_RIGHT"] = L(op.padding.right)
     k = op.kernel
-    e["NPU_SET_KERNEL_HEIGHT_M1"] = L(k.dilation_y) * (L(k.height) - 1)
-    e["NPU_SET_KERNEL_WIDTH_M1"] = L(k.dilation_x) * (L(k.width) - 1)
+    if not is_ew:
+        e["NPU_SET_KERNEL_HEIGHT_M1"] = L(k.dilation_y) * (L(k.height) - 1)
+        e["NPU_SET_KERNEL_WIDTH_M1"] = L(k.dilation_x) * (L(k.width) - 1)
+        pk = isinstance(op, a.NpuConv2DOperation) and op.block_traversal == a.NpuBlockTraversal.PART_KERNEL_FIRST
+        sx, sy = L(k.stride_x) - 1, L(k.stride_y) - 1
+        # KERNEL_STRIDE: bit0 stride_x lsb, bit1 stride_y lsb, bit2 part-kernel-first, bit3/4 dilation x/y - 1, bits 6..8 / 9..11 stride x/y msbs
+        e["NPU_SET_KERNEL_STRIDE"] = (sx % 2) + 2 * (sy % 2) + (4 if pk else 0) + 8 * (L(k.dilation_x) - 1) + 16 * (L(k.dilation_y) - 1) \
+            + 64 * (sx / 2) + 512 * (sy / 2)
     e["NPU_SET_OFM_BLK_HEIGHT_M1"] = L(op.block_config.height) - 1
     e["NPU_SET_OFM_BLK_WIDTH_M1"] = L(op.block_config.width) - 1
     e["NPU_SET_OFM_BLK_DEPTH_M1"] = L(op.block_config.depth) - 1
@@ -189,15 +394,70 @@ def _expected(op, accel):
                 e[bn], e[ln] = L(op.biases[c].address), L(op.biases[c].length)
             elif c < ncores:
                 e[bn], e[ln] = L(op.biases[0].address), L(0)
-    if op.activation is not None and op.activation.min is not None:
-        q = op.ofm.quantization
-        sc = 1.0 if q.scale_f32 is None else q.scale_f32
-        lo = L(q.zero_point) + int(round(op.activation.min / sc))
-        hi = L(q.zero_point) + int(round(op.activation.max / sc))
-        e["NPU_SET_ACTIVATION_MIN"] = lo
-        e["NPU_SET_ACTIVATION_MAX"] = z3.If(hi > 255, 255, hi)
-    if isinstance(op, a.NpuPoolingOperation) and op.rescale is not None:
-        e["NPU_SET_OFM_SCALE"] = L(op.rescale.shift[0]) * (1 << 32) + L(op.rescale.multiplier[0])
+    # ---- activation: function code and clamp range
+    act = op.activation
+    dt = op.ofm.data_type
+    dmin, dmax = dt.min_value(), dt.max_value()
+    q = op.ofm.quantization
+    sc = 1.0 if q is None or q.scale_f32 is None else q.scale_f32
+    lo = L(q.zero_point) + int(round(act.min / sc)) if act is not None and act.min is not None else L(dmin)
+    hi = L(q.zero_point) + int(round(act.max / sc)) if act is not None and act.max is not None else L(dmax)
+    lo, hi = _zmax(lo, -32768, dmin), _zmin(hi, 32767, dmax)
+    code = L(0)
+    if act is not None:
+        nm = act.op_type.name
+        if nm == "TABLE_LOOKUP":
+            code = 16 + L(act.lookup_table_index)
+            if dt == a.NpuDataType.INT32:
+                code = code + 3 * 4096  # the table is indexed with the int8 range of the 32-bit value
+                lo, hi = _zmax(lo, -128), _zmin(hi, 127)
+        else:
+            code = L({"NONE_OR_RELU": 0, "TANH": 3, "SIGMOID": 4}[nm])
+    e["NPU_SET_ACTIVATION"] = code
+    e["NPU_SET_ACTIVATION_MIN"] = lo
+    e["NPU_SET_ACTIVATION_MAX"] = hi
+    # ---- scaling registers given explicitly
+    if isinstance(op, a.NpuPoolingOperation):
+        from ethosu.vela.operation import ExplicitScaling
+
+        if isinstance(op.rescale, ExplicitScaling):
+            e["NPU_SET_OFM_SCALE"] = L(op.rescale.shift[0]) * (1 << 32) + L(op.rescale.multiplier[0])
+        elif gs and op.rescale is None and (op.ifm.quantization.scale_f32 is None or op.ofm.quantization.scale_f32 is None) \
+                and (act is None or act.op_type.name not in ("TANH", "SIGMOID")):
+            e["NPU_SET_OFM_SCALE"] = L(1)
+        e["@param"] = L(_POOL_CODE[op.sub_op_type.name])
+    elif is_ew:
+        nm = op.sub_op_type.name
+        e["@param"] = L(_EW_CODE[nm])
+        unscaled = op.ofm.quantization is None or op.ofm.quantization.scale_f32 is None
+        if nm in ("ADD", "SUB", "MUL"):
+            if op.rescale is not None:
+                e["NPU_SET_OFM_SCALE"] = L(op.rescale[1]) * (1 << 32) + L(op.rescale[0])
+            elif unscaled:
+                e["NPU_SET_OFM_SCALE"] = L(1)
+            if nm != "MUL" and (op.rescale is not None or unscaled):
+                e["NPU_SET_OPA_SCALE"] = L(1)
+                e["NPU_SET_OPB_SCALE"] = L(1)
+        elif nm in ("LRELU", "ABS"):
+            if op.ofm.quantization.scale_f32 == 1.0:
+                e["NPU_SET_OFM_SCALE"] = L(30 * (1 << 32) + (1 << 30))  # 1.0 = 2^30 * 2^-30
+        else:
+            e["NPU_SET_OFM_SCALE"] = L(1)
+        if nm not in _UNARY:
+            f2 = op.ifm2
+            e["NPU_SET_IFM2_ZERO_POINT"] = L(f2.quantization.zero_point)
+            e["NPU_SET_IFM2_PRECISION"] = L((1 if f2.data_type.is_signed() else 0) + 4 * prec_index(f2.data_type)
+                                            + (64 if f2.layout == a.NpuLayout.NHCWB16 else 0))
+            bc = 64 if op.reversed_operands else 0
+            if has_scalar:
+                bc += 128
+                e["NPU_SET_IFM2_SCALAR"] = L(f2.quantization.zero_point) + int(round(op.ifm2_scalar))
+            else:
+                bc += (1 if f2.shape.height != op.ifm.shape.height else 0) + (2 if f2.shape.width != op.ifm.shape.width else 0) \
+                    + (4 if f2.shape.depth != op.ifm.shape.depth else 0)
+            e["NPU_SET_IFM2_BROADCAST"] = L(bc)
+    else:
+        e["@param"] = L(0)
     return e
 
 
@@ -245,7 +505,7 @@ def _decode(words, nops):
     return ops, stop_count, bad, waits
 
 
-def pair(V, accel, kind, group):
+def pair(V, accel, kind, group, light=False):
     import ethosu.vela.register_command_stream_generator as g
     import ethosu.vela.register_command_stream_util as u
     from ethosu.vela import api as a
@@ -257,12 +517,18 @@ def pair(V, accel, kind, group):
     saved = g.calc_blockdep
     g.calc_blockdep = lambda *a_: 0
     saved_acc = g.get_op_memory_accesses
-    if group == "tiles":
-        # symbolic tile splits make the per-tile address ranges (and with them the wait analysis) fork heavily; waits are examined by the
-        # other groups and by C04, so this group runs with empty access sets
+    saved_abc = g.get_arch_block_config
+    if light or group in ("tiles", "shape", "ifm_strides", "ofm_strides"):
+        # symbolic tile splits / shapes make the per-tile address ranges (and with them the wait analysis) fork heavily; waits are examined by
+        # the other groups and by C04, so these groups run with empty access sets
         from ethosu.vela.range_set import MemoryAccessSet
 
         g.get_op_memory_accesses = lambda op, arch_: MemoryAccessSet()
+    if group in ("kernel", "shape"):
+        # the SHRAM layout derived from kernel/shape is C15's subject: use the template's (concrete) block configuration result
+        tmpl = _template(accel, kind)
+        fixed = saved_abc(tmpl, getattr(tmpl, "block_traversal", a.NpuBlockTraversal.DEPTH_FIRST), arch)
+        g.get_arch_block_config = lambda *a_, **k_: fixed
     u_cache = getattr(__import__("ethosu.vela.range_set", fromlist=["x"]).MemoryAccessSet.conflicts, "cache_clear", None)
     if u_cache:
         u_cache()
@@ -275,6 +541,7 @@ def pair(V, accel, kind, group):
     finally:
         g.calc_blockdep = saved
         g.get_op_memory_accesses = saved_acc
+        g.get_arch_block_config = saved_abc
     # ---- hardware alignment rules for the symbolic group (everything else in the template is aligned)
     viol = []
     for op in (op1, op2):
@@ -291,6 +558,17 @@ def pair(V, accel, kind, group):
                 viol += [L(wr.address) % 16 != 0, L(wr.length) % 16 != 0]
             for br in op.biases:
                 viol += [L(br.length) % 16 != 0]
+            for f in (op.ifm, op.ofm, getattr(op, "ifm2", None)):
+                if f is None or (f is op.ifm2 and op.ifm2_scalar is not None):
+                    continue
+                es = f.data_type.size_in_bits() // 8
+                b16 = f.layout == a.NpuLayout.NHCWB16
+                for ad in f.tiles.addresses:  # feature-map bases: element aligned, 16 bytes for the bricked layout
+                    if not isinstance(ad, int) or ad % (16 if b16 else es):
+                        viol += [L(ad) % (16 if b16 else es) != 0]
+                if f.strides is not None:  # explicit strides: whole bricks (C, Y) for NHCWB16, whole elements (Y, X) for NHWC
+                    chk = [(f.strides.depth, 16), (f.strides.height, 16)] if b16 else [(f.strides.height, es), (f.strides.width, es)]
+                    viol += [L(v) % m != 0 for v, m in chk]
     broken = z3.Or(*viol) if viol else z3.BoolVal(False)
     if err is not None:
         return [("alignment/length error only when a hardware alignment rule is broken", broken)]
@@ -304,16 +582,18 @@ def pair(V, accel, kind, group):
     if len(ops) != 2:
         return cl
     for idx, (op, (name, regs, waits, opparam)) in enumerate(zip((op1, op2), ops)):
-        want_name = {"conv": "NPU_OP_CONV", "pool": "NPU_OP_POOL", "dma": "NPU_OP_DMA_START"}[kind]
+        want_name = {"conv": "NPU_OP_CONV", "dw": "NPU_OP_DEPTHWISE", "pool": "NPU_OP_POOL", "ew": "NPU_OP_ELEMENTWISE", "dma": "NPU_OP_DMA_START"}[kind]
         cl.append(("op %d: operation word kind" % idx, name == want_name))
         exp = _expected(op, accel)
+        cl.append(("op %d: operation word parameter (sub-operation / DMA channel and mode)" % idx, opparam == exp.pop("@param")))
         for reg, val in sorted(exp.items()):
             if reg not in regs:
                 cl.append(("op %d: register %s was never written" % (idx, reg), False))
                 continue
             param, payload = regs[reg]
             if payload is None:
-                cl.append(("op %d: %s holds the operation's value (no truncation)" % (idx, reg), param == val))
+                cl.append(("op %d: %s holds the operation's value (no truncation; negative values as 16-bit two's complement)" % (idx, reg),
+                           z3.And(param == z3.If(val < 0, val + 65536, val), val >= -32768, val < 65536)))
             else:
                 cl.append(("op %d: %s holds the operation's value incl. parameter bits (no truncation)" % (idx, reg),
                            z3.And(payload == val % (1 << 32), param == val / (1 << 32), payload >= 0, payload < (1 << 32), param >= 0, param < 65536)))
@@ -325,11 +605,17 @@ FUNCS = {"pair": pair}
 
 def instances(tier, seed):
     out = []
-    conv_groups = ["ifm_addr", "ofm_addr", "weights", "biases", "tiles", "zp", "pad", "region", "activation"]
+    conv_groups = ["ifm_addr", "ofm_addr", "weights", "biases", "tiles", "zp", "pad", "region", "activation", "kernel", "ifm_prec", "ofm_prec", "shape",
+                   "ifm_strides", "ofm_strides", "act_kind"]
     for accel in ("Ethos_U55_128", "Ethos_U65_512"):
         for gname in conv_groups:
             out.append(dict(key="pair/%s/conv/%s" % (accel, gname), fn="pair", params=dict(accel=accel, kind="conv", group=gname), weight=100))
-        for gname in ("ofm_scale", "ifm_addr", "zp"):
+        for gname in ("kernel", "zp"):
+            out.append(dict(key="pair/%s/dw/%s" % (accel, gname), fn="pair", params=dict(accel=accel, kind="dw", group=gname), weight=100))
+        for gname in ("ofm_scale", "ifm_addr", "zp", "pool_kind", "kernel"):
             out.append(dict(key="pair/%s/pool/%s" % (accel, gname), fn="pair", params=dict(accel=accel, kind="pool", group=gname), weight=100))
-        out.append(dict(key="pair/%s/dma/dma" % accel, fn="pair", params=dict(accel=accel, kind="dma", group="dma"), weight=100))
+        for gname in ("ew_kind", "ew_rescale", "ifm2_addr", "broadcast", "scalar", "ofm_prec"):
+            out.append(dict(key="pair/%s/ew/%s" % (accel, gname), fn="pair", params=dict(accel=accel, kind="ew", group=gname), weight=100))
+        for gname in ("dma", "dma_mode"):
+            out.append(dict(key="pair/%s/dma/%s" % (accel, gname), fn="pair", params=dict(accel=accel, kind="dma", group=gname), weight=100))
     return out
